@@ -104,7 +104,7 @@ def gen_build(tier, seed, todfs=False):
                 stats["flows"] += 1
             nstocks = r.randint(0, 3)
             for i in range(nstocks):
-                cls = r.choice(["fds", "idsm", "sdsm", "sdsm", "sdsmsub", "idsmsub"])
+                cls = r.choice(["fds", "idsm", "sdsm", "sdsm", "sdsmsub", "idsmsub"] if not todfs else ["fds", "idsm", "sdsm"])
                 tl = "t" if ("h" not in letters or r.random() < 0.8) else "h"
                 if badkind == "time_letter_missing" and i == 0:
                     tl = "q"
@@ -115,7 +115,7 @@ def gen_build(tier, seed, todfs=False):
                     ls = ls[1:] + ls[:1] if r.random() < 0.7 else ls[1:]
                 lm = "none" if cls == "fds" else r.choice(LMS)
                 if badkind == "lm_missing" and i == 0:
-                    cls, lm = r.choice(["idsm", "sdsm", "sdsmsub"]), "none"
+                    cls, lm = r.choice(["idsm", "sdsm", "sdsmsub"] if not todfs else ["idsm", "sdsm"]), "none"
                 if badkind == "lm_unused" and i == 0:
                     cls, lm = "fds", r.choice(LMS)
                 solver = r.choice(["manual", "lapack", "manual"])
